@@ -24,7 +24,8 @@ Off == [on |-> FALSE]
 On(v) == [on |-> TRUE, v |-> v]
 
 \* four constants: all relative orders and ties of up to four bounds occur
-VInt == {-4, 0, 6, 8}      \* -1, 0, 1.5, 2        (quarters; a non-integral bound on an integer is legal)
+VInt == {-6, 0, 6, 8}      \* -1.5, 0, 1.5, 2      (quarters; a non-integral bound on an integer is legal, on either side of zero:
+                           \*                        rounding toward zero and rounding into the range differ below zero)
 VNum == {-2, 0, 1, 6}      \* -0.5, 0, 0.25, 1.5
 V(t_) == IF t_ = "integer" THEN VInt ELSE VNum
 Mults(t_) == IF t_ = "integer" THEN {4, 8, 12} ELSE {1, 2, 4, 6}   \* 1,2,3 / 0.25,0.5,1,1.5 (1: the no-op for integers is a real constraint for numbers)
@@ -47,7 +48,7 @@ Unit(ty_, pos_, min_, max_, emin_, emax_, mult_) ==
   LET \* integer: every integer from below the smallest to above the largest constant plus two
       \* non-integral values; number: every quarter step
       step     == IF ty_ = "integer" THEN 4 ELSE 1
-      lo       == (CHOOSE m \in V(ty_) : \A w \in V(ty_) : m <= w) - 2 * step
+      lo       == (((CHOOSE m \in V(ty_) : \A w \in V(ty_) : m <= w) \div step) * step) - 2 * step   \* on the grid of the type
       hi       == (CHOOSE m \in V(ty_) : \A w \in V(ty_) : m >= w) + 2 * step
       grid     == [i \in 1..((hi - lo) \div step + 1) |-> JNum(lo + (i - 1) * step)]
       vals     == IF ty_ = "integer" THEN grid \o <<JNum(2), JNum(-3), JNum(6)>> ELSE grid
